@@ -329,6 +329,9 @@ class SockState(object):
                     self.hdr_pos = pos
                     return
                 head = bytes(buf[pos:pos + 4])
+                if len(head) < 4 and (b"GET "[:len(head)] == head or b"CONN"[:len(head)] == head):
+                    self.hdr_pos = pos       # a request written in small pieces: wait for more
+                    return
                 if head in (b"GET ", b"CONN"):
                     i = buf.find(b"\r\n\r\n", pos)
                     if i < 0:
